@@ -805,6 +805,38 @@ def xop_triples(node, op):
     return {"viol": viol, "n": n}
 
 
+def xop_noop(node, op):
+    """['noop', None, slot]: apply the arithmetic no-ops that fit the type of the object
+    (x+0 / x-0 for a Sum, 1*x / x*1 for a Product, x/1, x**1, abs(x), as_ufl(x), ...):
+    constructors that hand back an existing node, on which Python re-runs __init__."""
+    import operator
+
+    a = node.get(op[2])
+    if not isinstance(a, Expr):
+        raise Skip("noop-not-expr")
+    cands = [
+        lambda x: x + 0,
+        lambda x: x - 0,
+        lambda x: 1 * x,
+        lambda x: x * 1,
+        lambda x: x / 1,
+        lambda x: x**1,
+        lambda x: abs(x) if type(x).__name__ == "Abs" else x,
+        lambda x: ufl.as_ufl(x),
+        lambda x: ufl.as_tensor(x) if x.ufl_shape else x,
+        lambda x: operator.pos(x) if hasattr(x, "__pos__") else x,
+    ]
+    same = 0
+    for f in cands:
+        try:
+            if f(a) is a:
+                same += 1
+        except BaseException as ex:  # noqa: B036
+            if isinstance(ex, (KeyboardInterrupt, RecursionError, MemoryError)):
+                raise
+    return {"returned_operand": same}
+
+
 def xop_rt_anc(node, op):
     """['rt_anc', None, slot, how, k]: round trips (E7) of up to k tracked expressions that
     contain the object in ``slot`` as a proper sub-node (by identity)."""
